@@ -143,6 +143,9 @@ def run_C12(chk):
         seen.add(m); inputs.append(m)
     probes_t = [I64MIN, -2**59, -2**31, -1, 0, 1700000000, 2**31, 7161147007, 2**40, 2**59, I64MAX - 1, I64MAX]
     probes_c = [(1950, 6, 1, 12, 0, 0), (2024, 3, 10, 2, 30, 0), (2500, 7, 1, 0, 0, 0), (I64MAX, 12, 31, 23, 59, 59), (I64MIN, 1, 1, 0, 0, 0)]
+    # civil years at and just beyond the ends of the instant range: where MakeTime's 400-year shift stops fitting and its guard decides
+    probes_far = [(292277026596, 12, 4, 15, 30, 7), (292277026597, 1, 1, 0, 0, 0), (292277030000, 7, 1, 12, 0, 0), (292277026403, 3, 1, 0, 0, 0), (292300000000, 1, 1, 0, 0, 0),
+                  (292471210000, 1, 1, 0, 0, 0), (292471210400, 6, 1, 0, 0, 0), (-292277022657, 1, 27, 8, 29, 52), (-292277022658, 12, 31, 0, 0, 0), (-292277030000, 7, 1, 12, 0, 0)]
     blocks = []
     for k, m in enumerate(inputs):
         mode = 'strict' if k % 5 == 4 else 'loose'
@@ -151,6 +154,7 @@ def run_C12(chk):
         ts = rng.sample(probes_t, 6) + [rng.randrange(-2**33, 2**34)]
         for t in ts: blk.append('bt %s %d' % (a, t))
         for c in rng.sample(probes_c, 2): blk.append('mt %s %s' % (a, C.fmt(c)))
+        blk.append('mt %s %s' % (a, C.fmt(rng.choice(probes_far))))
         blk += ['nt %s %d' % (a, rng.choice(probes_t)), 'pt %s %d' % (a, rng.choice(probes_t)), 'bt %s %d' % (b2, ts[0]), 'mt %s %s' % (b2, C.fmt(probes_c[1]))]
         blocks.append(blk)
     mo, io = run_blocks(chk, exe, blocks, 'load')
